@@ -508,6 +508,58 @@ class SpecEval:
             self.err('goeq expects interface values')
         return V(Exec.any_eq(None, a.term, b.term), 'Bool', 'bool')
 
+    def b_f32(self, args):
+        x = self.eval(args[0])
+        if x.sort == 'Int':
+            return V('((_ to_fp 8 24) RNE (to_real %s))' % x.term, 'F32', 'float32')
+        if x.sort == 'F64':
+            return V('((_ to_fp 8 24) RNE %s)' % x.term, 'F32', 'float32')
+        if x.sort == 'F32':
+            return V(x.term, 'F32', 'float32')
+        self.err('f32 of sort ' + x.sort)
+
+    def b_f64(self, args):
+        x = self.eval(args[0])
+        if x.sort == 'Int':
+            return V('((_ to_fp 11 53) RNE (to_real %s))' % x.term, 'F64', 'float64')
+        if x.sort == 'F32':
+            return V('((_ to_fp 11 53) RNE %s)' % x.term, 'F64', 'float64')
+        if x.sort == 'F64':
+            return V(x.term, 'F64', 'float64')
+        self.err('f64 of sort ' + x.sort)
+
+    def b_trunc(self, args):
+        x = self.eval(args[0])
+        return V('(fp.roundToIntegral RTZ %s)' % x.term, x.sort, x.ts)
+
+    def b_toint(self, args):
+        from .models import f2i_term
+        x = self.eval(args[0])
+        return V(f2i_term(self.vc, x.term, x.sort, 'int'), 'Int', 'int')
+
+    def b_fabs(self, args):
+        x = self.eval(args[0])
+        return V('(fp.abs %s)' % x.term, x.sort, x.ts)
+
+    def b_isnan(self, args):
+        x = self.eval(args[0])
+        return V('(fp.isNaN %s)' % x.term, 'Bool', 'bool')
+
+    def b_ext(self, args):
+        """ext("name", "type", args...): the uninterpreted function that models dependency function `name`"""
+        if args[0][0] != 'str' or args[1][0] != 'str':
+            self.err('ext("name", "result type", args...)')
+        from .spec import Parser
+        rts = resolve_type(self.prog, self.pkg, Parser(args[1][1]).parse_type())
+        rs = self.vc.sort_of(rts)
+        avs = [self.eval(a) for a in args[2:]]
+        f = self.vc.ufun('ext.' + args[0][1], [a.sort for a in avs], rs)
+        t = '(%s %s)' % (f, ' '.join(a.term for a in avs)) if avs else f
+        return V(t, rs, rts)
+
+    def b_unbox(self, args):
+        self.err('use x.(T)')
+
     def b_wrap64(self, args):
         x = self.eval(args[0])
         return V('(wrap64 %s)' % x.term, 'Int', 'int64')
